@@ -656,6 +656,74 @@ def c19_collect(pid):
     return f
 
 
+def world_rule3(pid):
+    """wd.accrue / wd.collect / wd.xfer / wd.startfl / wd.startliq / wd.endliq: the whole real instruction (inside real transactions
+    where its meaning depends on them) against the whole-instruction model: an instruction that goes through where the exact
+    evaluation refuses it for a reason this property is about, or that the harness itself flags from the property text."""
+    T = {
+        "wd.accrue": ("accrual crank", {
+            "C06": {6093: "on a bank of another group (the accrual then runs with that group's fee settings)"},
+            "C08": {6093: "on a bank of another group"},
+            "C19": {6093: "on a bank of another group (fees are booked at that group's rates)"}}),
+        "wd.collect": ("fee collection", {
+            "C14": {6080: "while the protocol-wide pause is in force"},
+            "C08": {6093: "on a bank of another group"},
+            "C19": {6093: "on a bank of another group", 6045: "into a token account that is not the global fee wallet's for the bank's mint"},
+            "C01": {6045: "into a token account that is not the global fee wallet's for the bank's mint"}}),
+        "wd.xfer": ("account transfer", {
+            "C14": {6080: "while the protocol-wide pause is in force"},
+            "C08": {6042: "for a signer who is not entitled", 6103: "for the authority of a frozen account", 6093: "with an account of another group"},
+            "C16": {6037: "of an account inside a flash loan", 6089: "of an account in receivership", 6079: "of an account that was transferred already",
+                    6045: "with a fee wallet that is not the global one"},
+            "C11": {6037: "of an account inside a flash loan"}, "C10": {6089: "of an account in receivership"}}),
+        "wd.startfl": ("flash-loan start", {
+            "C11": {6038: "without a later end_flashloan of this program for the same account (or on an account already in a flash loan)",
+                    6035: "on a disabled account", 6089: "on an account in receivership", 6103: "on a frozen account", 6042: "for a signer who is not the authority"},
+            "C08": {6042: "for a signer who is not the authority"}, "C10": {6089: "on an account in receivership"}}),
+        "wd.startliq": ("liquidation start", {
+            "C10": {6068: "of an account that is healthy at maintenance level", 6085: "of an account already in receivership / in a flash loan / disabled",
+                    6086: "that is not the first instruction", 6087: "next to another start", 6088: "without an end as the last instruction",
+                    6089: "next to an instruction that is neither start, end, withdraw nor repay", 6095: "with a liquidation record that is not the account's"},
+            "C08": {6095: "with a liquidation record that is not the account's"}, "C11": {6085: "of an account inside a flash loan"}}),
+        "wd.endliq": ("liquidation end", {
+            "C10": {6072: "leaving the account less healthy than the start found it", 6068: "leaving the account healthy (assets were worth five dollars or more)",
+                    6090: "with a seizure above the repaid value times the maximum premium", 6085: "of an account that is not in receivership",
+                    6095: "with a liquidation record that is not the account's", 6096: "signed by someone else than the receiver the record names"},
+            "C08": {6096: "signed by someone else than the receiver the record names", 6095: "with a liquidation record that is not the account's",
+                    6099: "with a wallet that is not the fee state's"}}),
+    }
+    def f(op, impl, model):
+        kind = op.split(" ", 1)[0]
+        if kind not in T:
+            return None
+        name, table = T[kind]
+        if impl.startswith("ok accepted-with-foreign-group") and pid in ("C06", "C08", "C19"):
+            return f"{pid} the permissionless {name} went through on a bank that belongs to ANOTHER group than the one passed: the bank is run under foreign settings: {op[:400]}"
+        if impl.startswith("ok accepted-with-wrong-fee-ata") and pid in ("C19", "C01"):
+            return f"{pid} fee collection went through with a program-fee destination that is not the global fee wallet's token account for the bank's mint: {op[:400]}"
+        if impl.startswith("ok") and model.startswith("err"):
+            code = int(model.split()[1])
+            why = table.get(pid, {}).get(code)
+            if why:
+                return f"{pid} a {name} went through {why} (the exact evaluation of the whole instruction answers {code}): {op[:600]}"
+        if impl.startswith("ok") and model.startswith("ok") and impl != model:
+            if kind == "wd.collect" and pid in ("C19", "C01"):
+                return f"C19 fee collection moves / books {impl.split()[-3:]} where the buckets and the vault give {model.split()[-3:]}: {op[:400]}" if pid == "C19" else \
+                       f"C01 fee collection leaves books that differ from the exact evaluation (the vault pays {impl.split()[-3:]}, the buckets give {model.split()[-3:]}): {op[:400]}"
+            if kind == "wd.accrue" and pid == "C06":
+                return f"C06 the accrual crank leaves books that differ from an accrual to the current time: {op[:400]}"
+            if kind == "wd.startliq" and pid == "C10":
+                return f"C10 the liquidation start records {impl.split()[1:]} where the exact evaluation gives {model.split()[1:]}: {op[:400]}"
+            if kind == "wd.endliq" and pid == "C10":
+                return f"C10 the liquidation end leaves account flags {impl.split()[1:]} where the exact evaluation gives {model.split()[1:]}: {op[:400]}"
+            if kind == "wd.startfl" and pid == "C11":
+                return f"C11 the flash-loan start leaves account flags {impl.split()[1:]} where the exact evaluation gives {model.split()[1:]}: {op[:400]}"
+            if kind == "wd.xfer" and pid == "C16":
+                return f"C16 the transfer leaves accounts that differ from the exact evaluation: {op[:400]}"
+        return None
+    return f
+
+
 WITNESS = {
     "C04": [c04_health, emode_dupes("C04"), venue_v4("C04"), world_rule("C04")],
     "C13": [emode_dupes("C13"), emode_leverage("C13"), accepted_invalid_curve("C13")],
@@ -664,19 +732,19 @@ WITNESS = {
     "C05": [c05_health, c05_liq, value_scaling("C05"), c05_conditions, venue_v4("C05"), world_rule2("C05")],
     "C07": [c07_health, c07_soc, world_rule2("C07")],
     "C09": [c09_health, venue_v4("C09")],
-    "C16": [c16_foc, c16_tags, world_rule("C16"), world_rule2("C16")],
+    "C16": [c16_foc, c16_tags, world_rule("C16"), world_rule2("C16"), world_rule3("C16")],
     "C03": [ixf_tokens("C03"), tf_mint("C03"), venue_booking("C03"), wrapper_free_value("C03"), world_rule("C03"), world_rule2("C03")],
     "C17": [c17_limits, world_rule("C17")],
-    "C06": [c06_accrual, world_rule("C06"), world_rule2("C06")],
-    "C19": [c19_emissions, tf_mint("C19"), c19_collect("C19")],
+    "C06": [c06_accrual, world_rule("C06"), world_rule2("C06"), world_rule3("C06")],
+    "C19": [c19_emissions, tf_mint("C19"), c19_collect("C19"), world_rule3("C19")],
     "C02": [c02_closebank, venue_booking("C02"), wrapper_free_value("C02"), world_rule("C02"), world_rule2("C02")],
-    "C11": [c11_health, world_rule2("C11")],
-    "C10": [bracket_conditions("C10"), c10_health, world_rule("C10"), world_rule2("C10")],
+    "C11": [c11_health, world_rule2("C11"), world_rule3("C11")],
+    "C10": [bracket_conditions("C10"), c10_health, world_rule("C10"), world_rule2("C10"), world_rule3("C10")],
     "C20": [c20_venue_value, c20_fail_closed, venue_booking("C20"), venue_v4("C20")],
-    "C01": [c19_collect("C01"), ixf_tokens("C01"), tf_mint("C01"), venue_booking("C01"), wrapper_free_value("C01"), world_rule("C01"), world_rule2("C01")],
+    "C01": [c19_collect("C01"), ixf_tokens("C01"), tf_mint("C01"), venue_booking("C01"), wrapper_free_value("C01"), world_rule("C01"), world_rule2("C01"), world_rule3("C01")],
 
-    "C08": [world_rule("C08"), world_rule2("C08")],
-    "C14": [world_rule("C14"), world_rule2("C14")],}
+    "C08": [world_rule("C08"), world_rule2("C08"), world_rule3("C08")],
+    "C14": [world_rule("C14"), world_rule2("C14"), world_rule3("C14")],}
 
 
 def witnesses(pid, disagreements):
